@@ -277,7 +277,7 @@ def validate(ctx: Ctx, runs, *, ver, retries, name, what, conformance=True, focu
                 acts[k] = acts.get(k, 0) + 1
     if conformance:
         big = consts(ver, retries, ctrmod=4096, hsretries=3, calls=BIG["MaxCalls"], conn=BIG["MaxConn"], fly=BIG["MaxFly"], keys=BIG["MaxKeys"],
-                     life=True, hs="HSAll", data="DataAll" if ver == 3 else "V2All", halves=True)
+                     life=True, hs="HSAll", data="DataNoise" if ver == 3 else "V2All", halves=True)
         ok_runs = [(k, r) for k, r in enumerate(runs) if k not in bad]
         stuck = ctx.validate_chains("Trace_LanSession", [{"steps": r["steps"], "events": r["steps"]} for _, r in ok_runs],
                                     name=name + "_ls", consts=big)
